@@ -762,6 +762,55 @@ func bgvObtainedScenario(cf bgvu.Conf) engine.Scenario {
 	}}
 }
 
+// serializeScenario (BGV): encode -> MarshalBinary -> UnmarshalBinary into a PRE-ALLOCATED plaintext of the other
+// encoding domain (bgv.NewPlaintext defaults to IsBatched=true; the coefficient-domain sender has false, and vice
+// versa), other scale and higher level -> decode. The receiver must decode to what the sender encoded: a flag,
+// scale or level that survives in the receiver sends the decoder down the wrong path.
+func bgvSerializeScenario(cf bgvu.Conf) engine.Scenario {
+	name := "bgv/" + cf.Name + "/serialize-into-preallocated"
+	return engine.Scenario{Name: name, Bound: -1, Fn: func(c *engine.Chooser) {
+		w := getBgvWorld(cf)
+		t, n := w.t, w.n
+		batched := c.Choose(2, "sender-domain") == 1 // choice 0: coefficient-domain sender into a batched receiver
+		level := c.Choose(w.L+1, "level")
+		scale := w.scales[c.Choose(3, "scale")+1]
+		c.Cover("serialize", fmt.Sprintf("bgv sender-batched=%v", batched))
+		pt := bgv.NewPlaintext(w.p, level)
+		pt.IsBatched = batched
+		pt.Scale = w.p.NewScale(scale)
+		v := make([]uint64, n)
+		for j := range v {
+			v[j] = uint64(7*j+3) % t
+		}
+		if err := w.ecd.Encode(v, pt); err != nil {
+			panic(err)
+		}
+		data, err := pt.MarshalBinary()
+		if err != nil {
+			failD(c, "C07/bgv/serialize/marshal-error", "%v", err)
+			return
+		}
+		recv := bgv.NewPlaintext(w.p, w.L) // pre-allocated: top level, default scale
+		recv.IsBatched = !batched
+		dirty(recv.Value, w.p.Q())
+		if err, pan := uni.Try(func() error { return recv.UnmarshalBinary(data) }); err != nil || pan != nil {
+			failD(c, "C07/bgv/serialize/unmarshal-error", "sender batched=%v level=%d: err=%v panic=%v", batched, level, err, pan)
+			return
+		}
+		got := make([]uint64, n)
+		if err, pan := uni.Try(func() error { return w.ecd.Decode(recv, got) }); err != nil || pan != nil {
+			failD(c, "C07/bgv/serialize/decode-error", "sender batched=%v level=%d: err=%v panic=%v", batched, level, err, pan)
+			return
+		}
+		if !bgvu.VecEq(got, v) {
+			failD(c, "C07/bgv/serialize/value", "sender batched=%v level=%d scale=%d -> receiver pre-allocated with IsBatched=%v: decodes to %v, sender encoded %v (receiver metadata after UnmarshalBinary: IsBatched=%v scale=%d level=%d)",
+				batched, level, scale, !batched, got, v, recv.IsBatched, recv.Scale.Uint64(), recv.Level())
+			return
+		}
+		c.Outcome(name, batched, level, scale)
+	}}
+}
+
 // allScalesScenario: EncodeRingT/DecodeRingT and Encode/Decode with EVERY unit of Z_t as scale (t <= 257; a spread
 // of 64 scales including the extremes for the large moduli), both element types, batched and coefficient domains,
 // full and short vectors.
@@ -893,7 +942,7 @@ func bgvScenarios(tier string) []engine.Scenario {
 	var scs []engine.Scenario
 	scs = append(scs, bgvCornerScenario())
 	for _, cf := range bgvConfigs(tier) {
-		scs = append(scs, bgvStructureScenario(cf), bgvShortDecodeScenario(cf), bgvProductScenario(cf), bgvEmbedScenario(cf), bgvAllScalesScenario(cf), bgvObtainedScenario(cf))
+		scs = append(scs, bgvStructureScenario(cf), bgvShortDecodeScenario(cf), bgvProductScenario(cf), bgvEmbedScenario(cf), bgvAllScalesScenario(cf), bgvObtainedScenario(cf), bgvSerializeScenario(cf))
 		for _, b := range []bool{true, false} {
 			for _, s := range []bool{false, true} {
 				scs = append(scs, bgvRoundTripScenario(cf, b, s))
